@@ -27,13 +27,15 @@ THEOREMS = [
     'C12.fits_length_partial', 'C12.fits_length_nocolour', 'C12.fits_length_clean', 'C12.length_overflow_counterexample',
     'C12.locale_texts_ok', 'C12.sentLine_le', 'C12.action_reply_single', 'C12.replyCall_normal', 'C12.unchecked_counterexample',
     'C12.mores_off_single', 'C12.nested_arg', 'C12.fits_512_call', 'C12.storeMask_cases',
+    'C12.relayed_len', 'C12.fits_512_relayed', 'C12.stale_belief_overflows',
 ]
 TRUSTED = ['Lean 4.33.0 kernel; axioms ⊆ {propext, Classical.choice, Quot.sound}',
            'harness/extractors/reply.py (constants of splitBytes, FormatContext, FormatParser, reply, _makeReply → Gen/Reply.lean)',
            'harness/c12.py generators, canonicalisation, spy on ircutils.wrap; hex line protocol; vlib.bot live bootstrap',
            'parameter: textwrap.TextWrapper()._split_chunks(t) — chunks concatenate to the whitespace-munged t (checked by the driver on every case)',
            'parameter: repr() inside ircutils.safeArgument (the model receives the text after safeArgument)',
-           'parameter: irc.isChannel / stripChannelPrefix (passed as booleans pubTo/pubNick/pubMsgTarget)']
+           'parameter: irc.isChannel / stripChannelPrefix (passed as booleans pubTo/pubNick/pubMsgTarget)',
+           'the oracle measures relayed lines with the hostmask the simulated server holds for the bot (changed only through NICK / CHGHOST messages fed to the bot), never with irc.prefix; the theorems carry the hypothesis belief = truth, proved for conformant servers by C10.view_refines_partial']
 RULE = ('pure level: seeded strings over an alphabet of ASCII words, digits, commas, hyphens, multi-byte characters (2/3/4 bytes), '
         'mIRC codes (bold/underline/reverse/reset, colour with 0-3 digits and optional ,bg incl. colour 0 and lone backgrounds), '
         'tabs and other blanks, unbreakable words; ops munge/split/btw/parse/ctx/wrap with sizes 4..120. live level: a real '
@@ -379,6 +381,9 @@ class Live(object):
         i18n.getLocalePath = locale_path
         self.lang = 'en'
         self.overridden = []
+        # the bot's nick!user@host as the (simulated) SERVER knows it: the reference with which relayed lines are
+        # measured.  It is only ever changed by feeding the bot the server's NICK / CHGHOST messages.
+        self.true_prefix = self.b.irc.prefix
         self.spy = []
         iu = self.b.ircutils
         real = iu.wrap
@@ -436,12 +441,40 @@ class Live(object):
                 child = g[k].get(ch['name'])
                 child.setValue(ch['vals'].get(k, CONF_DEFAULTS[k]))
                 self.overridden.append((g[k], child))
-        self.b.irc.prefix = cfg['botprefix']
+        self.become(cfg.get('from_botprefix'))
+        if cfg.get('keep_userhost'):
+            # only the nick changes (the server sends a NICK message, no CHGHOST)
+            cfg['botprefix'] = '%s!%s' % (cfg['botprefix'].split('!', 1)[0], self.true_prefix.split('!', 1)[1])
+            del cfg['keep_userhost']
+        self.become(cfg['botprefix'])
         return self.set_lang(cfg.get('lang', 'en'))
 
-    def run(self, inp):
+    @property
+    def true_nick(self):
+        return self.true_prefix.split('!', 1)[0]
+
+    def become(self, want):
+        """the server changes the bot's nick and/or user@host: ':old!u@h NICK :new', ':nick!u@h CHGHOST u2 h2'"""
+        if not want or want == self.true_prefix:
+            return
         b = self.b
-        T = self.configure(inp['cfg'])
+        (nick, rest) = self.true_prefix.split('!', 1)
+        (wnick, wrest) = want.split('!', 1)
+        if wnick != nick:
+            b.irc.feedMsg(b.ircmsgs.IrcMsg(':%s NICK :%s' % (self.true_prefix, wnick)))
+            self.true_prefix = '%s!%s' % (wnick, rest)
+        if wrest != rest:
+            (u, h) = wrest.split('@', 1)
+            b.irc.feedMsg(b.ircmsgs.IrcMsg(':%s CHGHOST %s %s' % (self.true_prefix, u, h)))
+            self.true_prefix = want
+        bot.drain(b)
+
+    def target(self, inp):
+        """a private message is addressed to the bot's current nick"""
+        return inp['target'] if inp['target'].startswith('#') else self.true_nick
+
+    def run(self, inp, T):
+        b = self.b
         b.callbacks.IrcObjectProxy._mores.clear()
         self.vp.VtLong.TEXT = inp['text']
         kw = dict(inp['kw'])
@@ -454,7 +487,7 @@ class Live(object):
         cmd = {'reply': 'vtlong', 'action': 'vtlong', 'error': 'vterr', 'nested': 'vtarg [vtlong]'}[shape]
         b.ircutils.wrap = self.spy_wrap
         try:
-            first = bot.feed(b, inp['prefix'], inp['target'], ('@' if chan else '') + cmd)
+            first = bot.feed(b, inp['prefix'], self.target(inp), ('@' if chan else '') + cmd)
         finally:
             b.ircutils.wrap = self.real_wrap
         who = {'A': inp['prefix'], 'B': inp.get('prefixB'), 'C': inp.get('prefixC')}
@@ -466,7 +499,7 @@ class Live(object):
 
         def do(w, nickarg):
             txt = ('@more' if chan else 'more') + ((' "%s"' % nickarg) if nickarg else '')
-            bt = bot.feed(b, who[w], inp['target'], txt)
+            bt = bot.feed(b, who[w], self.target(inp), txt)
             code, real = more_code(bt, T)
             steps.append((w, nickarg, code, real))
             return code
@@ -521,6 +554,7 @@ def call_fields(L, inp):
     iu = b.ircutils
     cfg = inp['cfg']; kw = inp['kw']
     nick = inp['prefix'].split('!', 1)[0]
+    target = L.target(inp)
 
     def pub(x):
         return bool(irc.isChannel(irc.stripChannelPrefix(x)))
@@ -536,9 +570,10 @@ def call_fields(L, inp):
         return [optb(d.get(k, CONF_DEFAULTS[k])) if isinstance(CONF_DEFAULTS[k], bool) else str(d.get(k, CONF_DEFAULTS[k]))
                 for k in CONF_KEYS]
     ch = cfg.get('chan')
-    return [wire.enc(cfg['botprefix']), wire.enc(inp['prefix']), wire.enc(nick), wire.enc(inp['target']),
-            optb(pub(inp['target'])), wire.enc_opt(to), optb(pub(to) if to is not None else False), optb(pub(nick)),
-            optb(pub(inp['target'])), optb(bool(iu.isChannel(to)) if to else False), optb(bool(iu.isChannel(inp['target']))),
+    # the prefix the MODEL sizes with is the bot's BELIEF (irc.prefix); the oracle measures with the truth
+    return [wire.enc(irc.prefix), wire.enc(inp['prefix']), wire.enc(nick), wire.enc(target),
+            optb(pub(target)), wire.enc_opt(to), optb(pub(to) if to is not None else False), optb(pub(nick)),
+            optb(pub(target)), optb(bool(iu.isChannel(to)) if to else False), optb(bool(iu.isChannel(target))),
             optb(bool(iu.isNick(to)) if to else False), wire.enc_opt(tohm),
             optb(kw.get('notice')), optb(kw.get('private')), optb(kw.get('prefixNick')),
             optb(inp.get('shape') == 'action'), '1', wire.enc(cfg.get('lang', 'en')),
@@ -552,6 +587,8 @@ MAX_WIRE = 512
 def live_case(I, L, inp, kind='live'):
     """run one reply (+ mores) on the live bot; return (Case, phase-1 driver line, phase-2 builder, combiner)"""
     b = L.b
+    inp['cfg'].setdefault('from_botprefix', L.true_prefix)     # for replays: where the bot came from
+    T = L.configure(inp['cfg'])
     call = call_fields(L, inp)
     kwto = inp['kw'].get('to')
     if kwto and b.ircutils.isNick(kwto):
@@ -562,7 +599,7 @@ def live_case(I, L, inp, kind='live'):
             inp.pop('actions', None)
         except KeyError:
             inp.pop('owner', None)
-    first, stored, steps, spy, T = L.run(inp)
+    first, stored, steps, spy, T = L.run(inp, T)
     cfg = inp['cfg']
     shape = inp.get('shape', 'reply')
     owner = inp.get('owner', 'A')
@@ -575,7 +612,7 @@ def live_case(I, L, inp, kind='live'):
     if cfg.get('lang', 'en') != 'en': tags.append('live:lang-' + cfg['lang'])
     if cfg.get('chan'): tags.append('live:channel-values')
     # effective values, for the oracle only (the model does its own lookups)
-    lookup_target = inp['kw'].get('to') if (inp['kw'].get('private') and inp['kw'].get('to')) else inp['target']
+    lookup_target = inp['kw'].get('to') if (inp['kw'].get('private') and inp['kw'].get('to')) else L.target(inp)
     eff = dict((k, cfg.get(k, CONF_DEFAULTS[k])) for k in CONF_KEYS)
     if cfg.get('chan') and cfg['chan']['name'] == lookup_target and b.ircutils.isChannel(lookup_target):
         eff.update(cfg['chan']['vals'])
@@ -637,7 +674,9 @@ def live_case(I, L, inp, kind='live'):
         tags.append('live:stored-under-to')
     # ---- property oracle on the implementation
     n = len(delivered)
-    wirelens = [blen(':%s %s' % (cfg['botprefix'], str(m))) for m in delivered]
+    true_prefix = L.true_prefix
+    if b.irc.prefix != true_prefix: tags.append('live:belief-differs')
+    wirelens = [blen(':%s %s' % (true_prefix, str(m))) for m in delivered]
     evaluated = True
     if not first or not all(is_msg(m) for m in delivered):
         fails.append((None, 'the command produced %r' % [str(m) for m in first]))
@@ -681,7 +720,7 @@ def live_case(I, L, inp, kind='live'):
         if over:
             cl = None
             if s1 is not None and F_COMMA in classify_wrap(I, s1, spy[0][1]): cl = F_COMMA
-            fails.append((cl, 'relayed line has %d bytes (limit %d): %r' % (over[0][0], limit, ':%s %s' % (cfg['botprefix'], str(over[0][1])))))
+            fails.append((cl, 'relayed line has %d bytes (limit %d): %r' % (over[0][0], limit, ':%s %s' % (true_prefix, str(over[0][1])))))
         # counts and text
         texts = []
         for k, m in enumerate(delivered):
@@ -805,7 +844,10 @@ def gen_live_input(r, thorough=False):
     hl = r.randint(20, 90)
     user = 'u' * r.randint(1, 10)
     host = ('h' * 70)[:max(1, hl - len('test!') - len(user) - 1)]
-    cfg['botprefix'] = 'test!%s@%s' % (user, host)
+    botnick = r.choice(['test'] * 5 + ['Test', 'TEST', 'tst', 'test_with_a_longer_nick', 'limnoria[bot]'])
+    cfg['botprefix'] = '%s!%s@%s' % (botnick, user, host)
+    if r.random() < 0.35:
+        cfg['keep_userhost'] = True
     nick = r.choice(['al', 'alice', 'Bob_', 'n' * 16, 'x' * 30, 'zoé' if r.random() < 0.3 else 'carol', 'Al[i]ce'])
     prefix = '%s!%s@%s' % (nick, 'id' * r.randint(1, 4), r.choice(['host', 'a.b.c.example.org', 'h' * 40]))
     target = r.choice(['#c', '#chan', '#' + 'c' * 30, '#ünï', 'test', 'test'])
@@ -889,10 +931,16 @@ def targeted_live_inputs(r, n_sweeps):
         ch, maximum = r.choice([('😀', 3), ('😀', 5), ('中', 50), ('😀', 50), ('中', 60), ('é', 60)])
         base = r.randint(20, 80)
         nick = r.choice(['al', 'alice', 'n' * 16])
-        for d in range(len(ch.encode('utf-8'))):
+        size = len(ch.encode('utf-8'))
+        for d in range(size + 1):
             cfg = {'length': 0, 'maximum': maximum, 'instant': 1, 'batch': r.choice([1, 3]), 'nickprefix': r.random() < 0.5,
-                   'withnotice': False, 'inprivate': False, 'noticewhenprivate': True,
-                   'botprefix': 'test!u@' + 'h' * (base + d)}
+                   'withnotice': False, 'inprivate': False, 'noticewhenprivate': True}
+            if d == 0:
+                cfg['botprefix'] = 'tst!u@' + 'h' * base
+            else:
+                # the server changes the bot's nick only: each nick is one byte longer than the previous one
+                cfg['botprefix'] = 'test_longer_' + 'x' * d + '!u@h'
+                cfg['keep_userhost'] = True
             out.append({'cfg': cfg, 'prefix': '%s!id@host' % nick, 'target': '#chan', 'kw': {},
                         'text': ch * (512 * maximum)})
     return out
@@ -989,8 +1037,16 @@ def explore(ctx, n_pure, n_wrap, n_live, stream='c12', with_corpus=True):
                        oracle_ok=True, kind='pure-locale', tags=('locale', 'locale:' + lang)), ['texts\t' + wire.enc(lang)])
         L.set_lang('en')
     rl = rng.make(stream + '/live')
+    import copy
     for _ in range(n_live):
-        LB.add(live_case(I, live(), gen_live_input(rl, ctx.thorough), 'live'))
+        inp = gen_live_input(rl, ctx.thorough)
+        LB.add(live_case(I, live(), inp, 'live'))
+        if rl.random() < 0.12:
+            # the SAME long reply asked again (and a third time): every delivery must be the same
+            for _k in range(rl.choice([1, 2])):
+                again = copy.deepcopy(LB.items[-1][0].input)
+                again['cfg'].pop('from_botprefix', None)
+                LB.add(live_case(I, live(), again, 'live-repeat'))
     for inp in targeted_live_inputs(rng.make(stream + '/targeted'), max(1, n_live // 350)):
         LB.add(live_case(I, live(), inp, 'live-targeted'))
     return I, B, LB
